@@ -689,19 +689,54 @@ func weightsFor(n int, pattern int) []int {
 	return w
 }
 
+// emptiesNext: positions (0..n, n = after the last group; a position may repeat) at which the NEXT
+// doConfig inserts an EMPTY group -- a Separator with nothing in front of it, what
+// `AddGroup(Host(""))` writes.  Build skips empty groups wherever they stand: the Group has one
+// entry per NON-EMPTY configured group.
+var emptiesNext []int
+
 func doConfig(weights []int, sels []int, rich bool, opsLen int, style int, class string, alsoRaw bool) {
 	n := len(weights)
 	specs := make([]*spec, n)
-	var c cfg.Config
+	empties := emptiesNext
+	emptiesNext = nil
+	var parts []cfg.Config
 	for i := range specs {
 		specs[i] = genSpec(i, weights[i], sels[i], rich)
-		c.AddGroup(specs[i].settings()...)
+		for _, e := range empties {
+			if e == i {
+				parts = append(parts, nil)
+			}
+		}
+		var g cfg.Config
+		g.AddGroup(specs[i].settings()...)
+		parts = append(parts, g)
+	}
+	for _, e := range empties {
+		if e >= n {
+			parts = append(parts, nil)
+		}
+	}
+	var c cfg.Config
+	for i, p := range parts {
+		if i > 0 {
+			c = append(c, byte(cfg.Separator))
+		}
+		c = append(c, p...)
 	}
 	var sj []interface{}
 	for _, s := range specs {
 		sj = append(sj, s.json())
 	}
 	desc := map[string]interface{}{"groups": sj, "config_bytes": len(c)}
+	if len(empties) > 0 {
+		desc["empty_groups_inserted_before_group"] = empties
+		cb := make([]int, len(c))
+		for i, b := range c {
+			cb[i] = int(b)
+		}
+		desc["config"] = cb
+	}
 	cfg.VerifSetRandN(hook)
 	defer cfg.VerifSetRandN(nil)
 	p, err := func() (p cfg.Profile, err error) {
@@ -1388,6 +1423,20 @@ func main() {
 				bias0 = []int{0, 25, 50, 90}[rng.Intn(4)]
 				doConfig(weightsFor(n, pat), selsFor(n, sel, rng.Intn(4)), pat%2 == 1, 1+rng.Intn(40), (n+pat)%3,
 					fmt.Sprintf("grid-n%d-%s", n, selName(sel)), n == 3)
+			}
+		}
+	}
+	// empty groups (a Separator with nothing before it) at the start / in the middle / at the end /
+	// doubled: they are skipped, the entries are exactly the non-empty groups
+	for _, sel := range allSel {
+		for n := 1; n <= 4; n++ {
+			for _, em := range [][]int{{0}, {1}, {n}, {1, 1}, {0, 1, n}, {n / 2, n}} {
+				if n == 1 && em[0] == 1 && len(em) < 3 {
+					em = []int{n}
+				}
+				bias0 = 25
+				emptiesNext = em
+				doConfig(weightsFor(n, 0), selsFor(n, sel, rng.Intn(4)), false, 4+rng.Intn(12), (n+len(em))%3, "empty-groups", false)
 			}
 		}
 	}
